@@ -181,7 +181,7 @@ class SerialExecutionQueue : public ExecutionQueue {
     unsigned laneID() const override { return 0; }
   };
 
-  uint64_t jobCount{0};
+  std::atomic<uint64_t> jobCount{0};
   std::atomic<bool> cancelled { false };
 
   ProcessGroup spawnedProcesses;
